@@ -450,6 +450,15 @@ def getitem(I, base, key):
             i = norm_index(I, key, val.length)
             return Cell("row", val.row(i), view_of=base)
         if isinstance(val, SymSeq):
+            if isinstance(key, str) and isinstance(val.elem, str) and \
+                    val.elem.startswith("Row("):
+                # np.array(list of records)["field"]
+                ety = dict(parse_type(val.elem)[1]).get(key)
+                if ety is None:
+                    I.fail(f"field_{key}@{I.cur_line}")
+                return Cell("arr", SymSeq(
+                    val.length, lambda i: _val(val.get(i)).fields[key],
+                    ety))
             if isinstance(key, slice):
                 lo, hi = slice_bounds(I, key, val.length)
                 return Cell("arr", seq_slice(val, lo, hi), view_of=base)
@@ -1148,6 +1157,18 @@ def _list_append(I, b, x):
 @method("list", "copy")
 def _list_copy(I, b):
     return Cell("list", b.read())
+
+
+@method("list", "pop")
+def _list_pop(I, b, idx=-1):
+    val = b.read()
+    if idx != -1:
+        raise Unsupported("list.pop(i)")
+    n = val.length
+    I.oblige(f"pop_nonempty@{I.cur_line}", to_int(n) > 0, "safety")
+    last = val.get(to_int(n) - 1)
+    b.write(SymSeq(to_int(n) - 1, val.get, val.elem))
+    return last
 
 
 @method("pylist", "append")
